@@ -241,7 +241,7 @@ def absStep (ab : Abs) : Prim → Option Abs
   | .mutField f => if ab.ff.contains f && !ab.view then some ab else none
   | .mutCur => if ab.fresh && !ab.view then some ab else none
   | .setScalar _ => if ab.fresh && !ab.view then some ab else none
-  | .publish => if ab.view then none else some ab
+  | .publish => if ab.view then none else some ⟨false, [], false⟩   -- once published the object is no longer this call's private copy: a later write to it is a breach (publish-then-mutate)
   | .unpublish => some ab
   | .ret => if ab.view then none else some ab
   | .retDeep => if ab.view then none else some ab
@@ -254,7 +254,9 @@ def absRun : Abs → List Prim → Option Abs
     | none => none
 
 /-- **fresh_mutation_discipline**: every in-place mutation of the method targets an object allocated
-earlier in the same call, and the method never returns the storage's container itself. -/
+earlier in the same call AND NOT YET PUBLISHED (a write after `publish` - publish-then-mutate - is a breach even
+under the lock: a reader that is not under the lock, or holds the object already, would see it change), and the
+method never returns the storage's container itself. -/
 def disciplined (body : List Prim) : Bool := (absRun Abs.init body).isSome
 
 /-- the method hands out nothing but deep copies (what `Study.trials`, `Study.user_attrs`,
